@@ -15,8 +15,8 @@ ASSUMPTIONS = [
 ]
 
 
-def _episode(rng, world, rules, n_add, mono_fraction=1.0):
-    ep = RuleEpisode(world)
+def _episode(rng, world, rules, n_add, mono_fraction=1.0, render="ident"):
+    ep = RuleEpisode(world, render=render)
     for r in rules:
         ep.with_partners(r)
     w = world if isinstance(world, World) else World(world["modules"], world["imports"])
@@ -52,7 +52,8 @@ def specs_for(ctx):
     for _ in range(n_worlds):
         w = random_world(rng, n_modules=rng.randint(6, 20))
         rules = rc.sampled_rules(rng, w.modules, 40, max_batch=3, strict_bias=0.0)
-        specs.append(_episode(rng, w, rules, n_add=2))
+        # names rendered as they are, collision-free, or as string prefixes / substrings of their siblings
+        specs.append(_episode(rng, w, rules, n_add=2, render=rng.choice(["ident", "clean", "adv", "adv2"])))
     meta["random_worlds"] = n_worlds
     return specs, meta
 
